@@ -25,6 +25,10 @@ THEOREMS = [
     "C04_collect_partial", "C04_collect_fuel_adequate", "C04_exec_eq_spec_partial",
     "C04_collect_full_acyclic", "C04_exec_eq_spec_full_acyclic", "C04_exec_terminates",
     "C04_collect_failure_is_local",
+    "C04_spec_is_functional", "C04_exec_is_the_spec_result",
+    "C04_collect_full_reachable", "C04_reachable_cycle_no_result",
+    "C04_exec_terminates_with_C07_coercion", "C04_exec_eq_spec_full_with_C07_coercion",
+    "C04_null_error_bijection_with_C07_coercion", "C04_argument_failure_with_C07_coercion",
 ]
 AXIOMS_OK = []
 RUN_MODULE = "Run.C04run Exec.ExecModel"
